@@ -70,6 +70,57 @@ func runC04(c *core.Ctx) {
 			c04Case(c, t, 1+(i+3)%8, 700, 2, 5, "large/"+t.Name, 0)
 		}
 	}
+	// single-sample appends across 2^24 samples (arithmetic on the length that
+	// is exact only for small numbers): shape and value checks, no world model
+	for i, ch := range []int{1, 3} {
+		t := dyn.Types[0] // int8: 16 MiB
+		caseID := fmt.Sprintf("beyond-2^24-samples/%s/C%d", t.Name, ch)
+		if !c.Mine(i+11) || !c.Want(caseID) {
+			continue
+		}
+		inst := "AppendSample[" + t.Name + "]"
+		frames := (1<<24+40)/ch + 1
+		startFrames := (1<<24 - 9) / ch
+		b := t.Alloc(signal.Allocator{Channels: ch, Length: startFrames, Capacity: frames})
+		d := map[string]any{"type": t.Name, "channels": ch, "length": startFrames, "capacity": frames}
+		base, capBefore := b.RawBase(), b.Cap()
+		for n := 0; n < 40; n++ {
+			lenBefore := b.Len()
+			v := t.FromInt(int64(1 + n%100))
+			c.Eval(1)
+			if p, msg := core.Guard(func() { b.AppendSample(v) }); p {
+				c.Violate(inst+"|panic", caseID, "AppendSample panicked: "+msg, d)
+				break
+			}
+			wantLength := (lenBefore + 1 + ch - 1) / ch
+			if b.Len() != lenBefore+1 || b.Length() != wantLength || b.Cap() != capBefore || b.Capacity() != frames || b.RawBase() != base || b.RawLen() != lenBefore+1 {
+				c.Violate(inst+"|length", caseID, fmt.Sprintf("after appending to a buffer of %d samples: Len=%d Length=%d Cap=%d Capacity=%d, expected Len=%d Length=%d Cap=%d Capacity=%d", lenBefore, b.Len(), b.Length(), b.Cap(), b.Capacity(), lenBefore+1, wantLength, capBefore, frames), d)
+				break
+			}
+			if got := b.Sample(lenBefore); !got.Same(v) {
+				c.Violate(inst+"|value", caseID, fmt.Sprintf("position %d holds %v, appended %v", lenBefore, got, v), d)
+				break
+			}
+			c.Obs("appends_across_2^24_samples", 1)
+		}
+	}
+	// parents whose storage comes from a growing Append: the buffer itself
+	// (window from frame 0 to its length) and a later window
+	for i, t := range dyn.ElemTypes() {
+		for ch := 1; ch <= 7; ch++ {
+			for _, k := range []int{2, 3, 5} {
+				if !c.Mine(i + ch + k) {
+					continue
+				}
+				caseID := fmt.Sprintf("grown/%s/C%d/K%d", t.Name, ch, k)
+				if c.Want(caseID) {
+					c04Case(c, t, ch, k, 0, k, caseID, -1)
+					c04Case(c, t, ch, k, 1, k-1, caseID+"/w", -1)
+				}
+			}
+		}
+	}
+	c.Floor("parents_grown_by_append", 50)
 	// a write cursor near the end of a very large buffer (several hundred
 	// thousand samples): a tiny window of a huge parent is still a window
 	for i, t := range dyn.ElemTypes() {
@@ -163,6 +214,14 @@ func c04CaseBody(c *core.Ctx, t *dyn.TypeOps, ch, k, s, e int, caseID string, fo
 	inst := "AppendSample[" + t.Name + "]"
 	w := mon.NewWorld(t)
 	b := t.Alloc(signal.Allocator{Channels: ch, Length: k, Capacity: k})
+	if forceCalls < 0 {
+		// the parent reached its k frames through a growing Append (whatever
+		// capacity that growth produced)
+		forceCalls = 0
+		b = t.Alloc(signal.Allocator{Channels: ch, Length: 1, Capacity: 1})
+		b.Append(t.Alloc(signal.Allocator{Channels: ch, Length: k - 1, Capacity: k - 1}))
+		c.Obs("parents_grown_by_append", 1)
+	}
 	all := b.RawAll()
 	for i := 0; i < all.Len(); i++ {
 		all.Set(i, w.NextStamp())
